@@ -329,14 +329,20 @@ pub proof fn lemma_section_rt_q<'a>(pre: Seq<u8>, vs: Seq<Question<'a>>)
     decreases vs.len()
 {
     if vs.len() > 0 {
+        let n = vs.len() as int;
         let dl = vs.drop_last();
         assert forall|i: int| 0 <= i < dl.len() implies (#[trigger] dl[i]).wf_ok() && dl[i].wf_canon() by { assert(dl[i] == vs[i]); }
         lemma_section_rt_q(pre, dl);
         let b = pre + seq_enc::<Question>(dl);
         let x = vs.last().wf_enc();
+        let b2 = b + x;
         vs.last().lemma_rt(b);
-        lemma_qchain_stable(b, x, pre.len() as int, dl, b.len() as int);
-        assert(pre + seq_enc::<Question>(vs) =~= b + x);
+        assert(vs.subrange(0, n - 1) =~= dl);
+        assert(vs[n - 1] == vs.last());
+        lemma_prefix_concat(b, x);
+        lemma_step_q(b, b2, pre.len() as int, vs, n - 1);
+        assert(vs.subrange(0, n) =~= vs);
+        lemma_concat_assoc(pre, seq_enc::<Question>(dl), x);
     } else {
         assert(pre + seq_enc::<Question>(vs) =~= pre);
     }
@@ -347,14 +353,20 @@ pub proof fn lemma_section_rt_rr<'a>(pre: Seq<u8>, vs: Seq<ResourceRecord<'a>>)
     decreases vs.len()
 {
     if vs.len() > 0 {
+        let n = vs.len() as int;
         let dl = vs.drop_last();
         assert forall|i: int| 0 <= i < dl.len() implies (#[trigger] dl[i]).wf_ok() && dl[i].wf_canon() by { assert(dl[i] == vs[i]); }
         lemma_section_rt_rr(pre, dl);
         let b = pre + seq_enc::<ResourceRecord>(dl);
         let x = vs.last().wf_enc();
+        let b2 = b + x;
         vs.last().lemma_rt(b);
-        lemma_rrchain_stable(b, x, pre.len() as int, dl, b.len() as int);
-        assert(pre + seq_enc::<ResourceRecord>(vs) =~= b + x);
+        assert(vs.subrange(0, n - 1) =~= dl);
+        assert(vs[n - 1] == vs.last());
+        lemma_prefix_concat(b, x);
+        lemma_step_rr(b, b2, pre.len() as int, vs, n - 1);
+        assert(vs.subrange(0, n) =~= vs);
+        lemma_concat_assoc(pre, seq_enc::<ResourceRecord>(dl), x);
     } else {
         assert(pre + seq_enc::<ResourceRecord>(vs) =~= pre);
     }
@@ -498,6 +510,36 @@ pub proof fn lemma_chain_det<'a, T: WireFormat<'a>>(data: Seq<u8>, p0: int, a: S
             if i < a.len() - 1 { assert(a.drop_last()[i] == a[i] && b.drop_last()[i] == b[i]); }
         }
     }
+}
+/// a prefix of a chain is a chain
+pub proof fn lemma_chain_take<'a, T: WireFormat<'a>>(data: Seq<u8>, p0: int, vs: Seq<T>, e: int, k: int)
+    requires chain::<T>(data, p0, vs, e), 0 <= k <= vs.len()
+    ensures exists|q: int| #[trigger] chain::<T>(data, p0, vs.subrange(0, k), q)
+    decreases vs.len() - k
+{
+    if k == vs.len() {
+        assert(vs.subrange(0, k) =~= vs);
+    } else {
+        let q = choose|q: int| p0 <= q <= e && chain::<T>(data, p0, vs.drop_last(), q) && #[trigger] T::wf_dec(data, q, &vs.last(), e);
+        lemma_chain_take::<T>(data, p0, vs.drop_last(), q, k);
+        assert(vs.drop_last().subrange(0, k) =~= vs.subrange(0, k));
+    }
+}
+/// completeness helper: if a full section `vs` decodes from p0 and the parser has read the prefix `done` up to pos, then the
+/// next entry of `vs` decodes at pos
+pub proof fn lemma_chain_next<'a, T: WireFormat<'a>>(data: Seq<u8>, p0: int, vs: Seq<T>, e: int, done: Seq<T>, pos: int)
+    requires chain::<T>(data, p0, vs, e), chain::<T>(data, p0, done, pos), done.len() < vs.len()
+    ensures exists|e2: int| #[trigger] T::wf_dec(data, pos, &vs[done.len() as int], e2)
+{
+    let k = done.len() as int;
+    lemma_chain_take::<T>(data, p0, vs, e, k + 1);
+    let q1 = choose|q: int| #[trigger] chain::<T>(data, p0, vs.subrange(0, k + 1), q);
+    let pre = vs.subrange(0, k + 1);
+    let q = choose|q: int| p0 <= q <= q1 && chain::<T>(data, p0, pre.drop_last(), q) && #[trigger] T::wf_dec(data, q, &pre.last(), q1);
+    assert(pre.drop_last() =~= vs.subrange(0, k));
+    assert(pre.last() == vs[k]);
+    lemma_chain_det::<T>(data, p0, vs.subrange(0, k), q, done, pos);
+    assert(T::wf_dec(data, pos, &vs[k], q1));
 }
 /// observably equal records have the same record type (and are OPT records together)
 pub proof fn lemma_eqv_type(a: &ResourceRecord, b: &ResourceRecord)
@@ -855,6 +897,7 @@ def apply(c):
             r is Ok ==> *old(offset) <= *final(offset), // @C01:cursor-monotone
             r is Ok ==> *final(offset) <= data.len(), // @C01:cursor-in-bounds
             r is Ok ==> chain::<T>(data@, *old(offset) as int, r.unwrap()@, *final(offset) as int), // @C05:entries-in-order
+            r is Err ==> forall|vs: Seq<T>, e: int| vs.len() == items_count ==> !chain::<T>(data@, *old(offset) as int, vs, e), // @C05:accepts-what-the-spec-decodes,C02:accepts-what-the-spec-decodes,C11:accepts-what-the-spec-decodes
 """)
     c.loop_spec(rel, P_IMPL, 'parse_section', 0, """
             invariant
@@ -868,6 +911,17 @@ def apply(c):
     c.ghost(rel, P_IMPL, 'parse_section', "section_items.push(T::parse(data, offset)?);", """
             proof { assert(section_items@.drop_last() =~= vx_old); assert(T::wf_dec(data@, vx_q, &section_items@.last(), *offset as int)); }
 """, where='after')
+    c.try_exit(rel, P_IMPL, 'parse_section', 'T::parse', """
+                proof {
+                    // completeness: the entry at this offset does not decode, so no section of items_count entries does
+                    assert forall|vs: Seq<T>, e: int| vs.len() == items_count implies !chain::<T>(data@, *old(offset) as int, vs, e) by {
+                        if chain::<T>(data@, *old(offset) as int, vs, e) {
+                            lemma_chain_next::<T>(data@, *old(offset) as int, vs, e, vx_old, vx_q);
+                            let e2 = choose|e2: int| #[trigger] T::wf_dec(data@, vx_q, &vs[vx_old.len() as int], e2);
+                            assert(T::wf_dec(data@, vx_q, &vs[vx_old.len() as int], e2));
+                        }
+                    }
+                }""")
     # ---- parse
     # R6: Option::map with a closure capturing &mut, inlined
     s = c.rd(rel)
@@ -915,6 +969,7 @@ def apply(c):
         ensures
             r is Ok ==> r.unwrap().dec(data@), // @C05:sections-follow-counts-and-rdlength,C09:opt-lifted,C08:packet-header
             data.len() < 12 ==> r is Err, // @C05:short-message-rejected
+            r is Err ==> forall|p: Packet<'a>| !p.dec(data@), // @C02:accepts-what-the-spec-decodes,C11:accepts-what-the-spec-decodes,C05:accepts-what-the-spec-decodes
 """)
     c.ghost(rel, P_IMPL, 'parse', "let answers = Self::parse_section(", "        let ghost vx_p1 = offset as int;", where='before')
     c.ghost(rel, P_IMPL, 'parse', "let name_servers =", "        let ghost vx_p2 = offset as int;", where='before')
@@ -927,6 +982,31 @@ def apply(c):
             assert(pkt_dec_w(data@, questions@, answers@, name_servers@, additional_records@, &header, vx_p1, vx_p2, vx_p3, vx_p4, vx_add)); // @C05:sections-follow-counts-and-rdlength,C09:opt-lifted
         }
 """, where='before')
+    # completeness of Packet::parse (R13 on the five `?` that can actually fail)
+    WIT = """let (w1, w2, w3, w4, wadd) = choose|p1: int, p2: int, p3: int, p4: int, add: Seq<ResourceRecord<'a>>|
+                                #[trigger] pkt_dec_w(data@, p.questions@, p.answers@, p.name_servers@, p.additional_records@, &p.header, p1, p2, p3, p4, add);"""
+    def none(extra):
+        return """
+                proof {
+                    assert forall|p: Packet<'a>| !p.dec(data@) by {
+                        if p.dec(data@) {
+                            %s
+                            %s
+                        }
+                    }
+                }""" % (WIT, extra)
+    # textual order of the calls is the order of the sections; rewrite from the last to the first so that occurrences stay valid
+    c.try_exit(rel, P_IMPL, 'parse', 'Self::parse_section', none("""lemma_chain_det::<Question>(data@, 12, p.questions@, w1, questions@, vx_p1);
+                            lemma_chain_det::<ResourceRecord>(data@, vx_p1, p.answers@, w2, answers@, vx_p2);
+                            lemma_chain_det::<ResourceRecord>(data@, vx_p2, p.name_servers@, w3, name_servers@, vx_p3);
+                            assert(chain::<ResourceRecord>(data@, vx_p3, wadd, w4));"""), occurrence=3)
+    c.try_exit(rel, P_IMPL, 'parse', 'Self::parse_section', none("""lemma_chain_det::<Question>(data@, 12, p.questions@, w1, questions@, vx_p1);
+                            lemma_chain_det::<ResourceRecord>(data@, vx_p1, p.answers@, w2, answers@, vx_p2);
+                            assert(chain::<ResourceRecord>(data@, vx_p2, p.name_servers@, w3));"""), occurrence=2)
+    c.try_exit(rel, P_IMPL, 'parse', 'Self::parse_section', none("""lemma_chain_det::<Question>(data@, 12, p.questions@, w1, questions@, vx_p1);
+                            assert(chain::<ResourceRecord>(data@, vx_p1, p.answers@, w2));"""), occurrence=1)
+    c.try_exit(rel, P_IMPL, 'parse', 'Self::parse_section', none("""assert(chain::<Question>(data@, 12, p.questions@, w1));"""), occurrence=0)
+    c.try_exit(rel, P_IMPL, 'parse', 'Header::parse', none("""assert(data.len() >= 12 && hdr_flags(data@) & 0x0040 == 0);"""))
     # ---- write_header / write_to
     c.contract(rel, P_IMPL, 'section_count', """
         ensures (r is Ok) == (len <= 65535), r is Ok ==> r.unwrap() == len, // @C04:counts-not-truncated
